@@ -81,6 +81,17 @@ def programs(tier, b, r):
                     ra, rb = B.opnd(("F", x)), B.opnd((kb, n & 1 if kb == "SB" else n))
                     B.add({"op": "meth", "name": nm, "a": ra, "args": [rb], "tag": "main"})
                     progs.append(B.build())
+    # ... and with the fixed-point value on the RIGHT of an integer's (or boolean's) assertion method: accepted only if the relation
+    # holds for the represented numbers (refusing the operand combination altogether is allowed)
+    for nm in gen.ASSERT2 + ["assert_range"]:
+        for n in (-1, 0, 1, 2, 3):
+            for y in fvals[::2]:
+                for ka in ("S", "SB"):
+                    B = gen.Builder("r%d/%s/%sF/%d,%d" % (r, nm, ka, n, y[0]), "plain", None, {"op": nm, "kinds": ka + "F"})
+                    ra, rb = B.opnd((ka, n & 1 if ka == "SB" else n)), B.opnd(("F", y))
+                    args = [rb] if nm != "assert_range" else [rb, B.opnd(("F", [y[0] + 2 * R, R]))]
+                    B.add({"op": "meth", "name": nm, "a": ra, "args": args, "tag": "main"})
+                    progs.append(B.build())
     for fn, kinds in (("LinCombFxp", ["S", "U"]), ("ensurefxp", ["S", "SB", "c", "f", "F"]), ("PrivValFxp", ["c", "f"]), ("PubValFxp", ["c", "f"])):
         for k in kinds:
             for n in (-3, -1, 0, 1, 2):
